@@ -291,6 +291,37 @@ theorem plan_finalCast (i : ReaderInfo) (g : Bool) (hm : i.dtype = .finalCast g)
     · simp [hm, hg, hops, bind, Except.bind, pure, Except.pure, Except.map]
     · simp [hm, hg0, hops, bind, Except.bind, pure, Except.pure, Except.map, List.filter_append, h1]
 
+/-! ## the inference chain -/
+
+theorem apply_none_iff (e : Env) (name : Str) (r : Rule) : r.apply e name = none ↔ r.fires e name = false := by
+  cases r <;> simp [Rule.apply, Rule.fires]
+
+/-- the `else` of the chain is reached exactly when no test holds -/
+theorem infer_error_iff (rules : List Rule) (els : Err) (e : Env) (name : Str) :
+    inferForceAs rules els e name = .error els ↔ ∀ r ∈ rules, r.fires e name = false := by
+  unfold inferForceAs
+  constructor
+  · intro h
+    split at h
+    · cases h
+    · rename_i hnone
+      rw [List.findSome?_eq_none_iff] at hnone
+      intro r hr
+      exact (apply_none_iff e name r).1 (hnone r hr)
+  · intro h
+    have : rules.findSome? (Rule.apply e name) = none := by
+      rw [List.findSome?_eq_none_iff]
+      intro r hr
+      exact (apply_none_iff e name r).2 (h r hr)
+    rw [this]
+
+theorem hasSuffix_iff (name suf : Str) : hasSuffix name suf = true ↔ ∃ stem, name = stem ++ suf := by
+  unfold hasSuffix
+  rw [List.isSuffixOf_iff_suffix]
+  constructor
+  · rintro ⟨t, ht⟩; exact ⟨t, ht.symm⟩
+  · rintro ⟨t, ht⟩; exact ⟨t, ht.symm⟩
+
 /-! ## helper calls -/
 
 theorem onImportError_eq (x y : Except Err Plan) :
